@@ -252,6 +252,10 @@ class Scenario:
             self.user_tree = {"mine/a.bin": b"user-data", "b.txt": b""}
             self.dst.mkdir(parents=True)
             _write_tree(self.dst, self.user_tree)
+        elif spec["pre"] == "user_empty":
+            # a folder the user created (and has not filled yet) is a user-provided folder too
+            self.user_tree = {}
+            self.dst.mkdir(parents=True)
 
     def count_ops(self):
         """number of mutating events of an uninterrupted attempt on a throw-away copy of the current local state"""
@@ -398,7 +402,7 @@ def tree_s(draw):
 def scenario_s(draw, max_crashes=3):
     fmt = draw(st.sampled_from(["raw", "zip", "zips"]))
     return {"fmt": fmt, "tree": draw(tree_s()), "relative": draw(st.sampled_from([None, "sub", "sub/deep"])),
-            "pre": draw(st.sampled_from(["absent", "absent", "parent", "user"])), "fn": draw(st.sampled_from(["folder", "imagefolder"])),
+            "pre": draw(st.sampled_from(["absent", "absent", "parent", "user", "user_empty"])), "fn": draw(st.sampled_from(["folder", "imagefolder"])),
             "readme": draw(st.sampled_from([0, 1, 2, 2])), "workers": draw(st.sampled_from([0, 1])),
             "crashes": draw(st.lists(st.floats(0, 0.999).map(lambda f: round(f, 3)), min_size=min(max_crashes, draw(st.sampled_from([0, 1, 1, 1]))),
                                     max_size=max_crashes))}
